@@ -164,9 +164,10 @@ Proof.
   pose proof (pr_lift_no_panic (d_seek_start (page * pr_page_size s)) s (d_seek_start_no_panic _ _)) as H.
   destruct (pr_lift (d_seek_start (page * pr_page_size s)) s) as [s1 [x|k|]]; cbn [snd] in *; try congruence.
   unfold bind at 1.
-  pose proof (pr_fill_loop_no_panic (S (N.to_nat (pr_page_size s1))) 0 (pr_page_size s1) s1) as H2.
-  destruct (pr_fill_loop (S (N.to_nat (pr_page_size s1))) 0 (pr_page_size s1) s1) as [s2 [x2|k|]]; cbn [snd] in *; try congruence.
-  destruct (list_eq_dec N.eq_dec _ _); cbn; congruence.
+  match goal with |- context [pr_fill_loop ?f ?d ?w ?st] =>
+    pose proof (pr_fill_loop_no_panic f d w st) as H2; destruct (pr_fill_loop f d w st) as [s2 [x2|k|]] end;
+    cbn [snd] in *; try congruence.
+  match goal with |- context [list_eq_dec ?a ?b ?c] => destruct (list_eq_dec a b c) end; cbn; congruence.
 Qed.
 
 Lemma pr_read_shape n s : exists s' r, pr_read n s = (s', r) /\
@@ -257,6 +258,21 @@ Proof.
   destruct o, out; auto.
 Qed.
 
+Lemma page_room a b P : 0 < b -> a / b < P -> a + (b - a mod b) <= P * b.
+Proof.
+  intros Hb Hq.
+  pose proof (N.div_mod a b ltac:(lia)) as E. pose proof (N.mod_lt a b ltac:(lia)) as Hr.
+  set (q := a / b) in *. set (r := a mod b) in *. clearbody q r.
+  assert (b * (q + 1) <= P * b) by nia. nia.
+Qed.
+
+Lemma page_full a b P : 0 < b -> P <= a / b -> P * b <= a.
+Proof.
+  intros Hb Hq.
+  pose proof (N.div_mod a b ltac:(lia)) as E.
+  set (q := a / b) in *. set (r := a mod b) in *. clearbody q r. nia.
+Qed.
+
 Section G.
   Variables (ps : N) (phys : list N).
   Hypothesis ps4 : 4 < ps.
@@ -273,21 +289,22 @@ Section G.
   Proof.
     intros off' r. unfold gr_read. cbv zeta.
     destruct (len phys / ps <=? off / (ps - 4)) eqn:E1.
-    - intros H. injection H as <- <-. cbn [len length]. change (N.of_nat 0) with 0.
-      repeat split; try lia.
-      + intros _. right. subst ls. nia.
-      + congruence.
+    - intros H. injection H as <- <-. rewrite len_nil.
+      split; [lia|]. split; [lia|]. split.
+      + intros _. right. subst ls. apply page_full; lia.
       + congruence.
     - destruct (page_ok ps (page_at ps phys (off / (ps - 4)))); intros H; injection H as <- <-; [|reflexivity].
       assert (Hp : off / (ps - 4) < len phys / ps) by lia.
       pose proof (len_page_at ps phys _ Hp) as Hl.
+      pose proof (page_room off (ps - 4) (len phys / ps) ltac:(lia) Hp) as Hroom. fold ls in Hroom.
+      pose proof (N.mod_lt off (ps - 4) ltac:(lia)) as Hm.
       rewrite len_slice, Hl.
-      set (k := N.min n (ps - 4 - off mod (ps - 4))).
-      assert (Hk : N.min k (ps - off mod (ps - 4)) = k) by (subst k; lia).
-      rewrite Hk. repeat split; try (subst k; lia).
-      + intros Hnil. apply (f_equal len) in Hnil. rewrite len_slice, Hl, Hk in Hnil.
-        cbn [len length] in Hnil. change (N.of_nat 0) with 0 in Hnil. left. subst k. lia.
-      + subst k ls. nia.
+      set (m := off mod (ps - 4)) in *. clearbody m. clear E1 Hp.
+      generalize dependent ls. intros ls0 Hroom.
+      split; [lia|]. split; [lia|]. split.
+      + intros Hnil. apply (f_equal len) in Hnil. rewrite len_slice, len_nil in Hnil.
+        rewrite Hl in Hnil. left. lia.
+      + intros _. split; lia.
   Qed.
 
   Lemma gr_read_exact_loop_spec : forall fuel want acc off off' r,
@@ -332,7 +349,7 @@ Section G.
     - destruct (gr_read_exact_loop ps phys (S (N.to_nat (N.min n (len phys / ps * (ps - 4))))) n [] off) as [off1 r] eqn:Eg.
       apply gr_read_exact_loop_spec in Eg; [|fold ls; lia].
       destruct r as [l|k|]; cbn in *; [|lia|contradiction].
-      change (N.of_nat 0) with 0 in Eg. destruct Eg as (A1 & A2 & A3). repeat split; lia.
+      rewrite len_nil in Eg. destruct Eg as (A1 & A2 & A3). repeat split; lia.
     - destruct (off mod 4 =? 0) eqn:E1; cbn.
       + repeat split; lia.
       + fold ls. destruct (ls <? off + (4 - off mod 4)) eqn:E2; cbn; [lia|].
